@@ -53,12 +53,13 @@ package memberlist
 // Lock invariant of nodeLock (Inv_N, DESIGN §4); each conjunct is its own obligation.
 //@ lock Memberlist.nodeLock recv m strict
 //@   protects Memberlist.nodes, nodeState.*, elems *nodeState, map map[string]*nodeState, map map[string]*suspicion
-//@   inv N1 [C01,C07]: forall n string :: has(m.nodeMap, n) ==> m.nodeMap[n] != nil && m.nodeMap[n].Name == n
-//@   inv N2 [C07]: forall i int :: 0 <= i && i < len(m.nodes) ==> m.nodes[i] != nil && has(m.nodeMap, m.nodes[i].Name) && m.nodeMap[m.nodes[i].Name] == m.nodes[i]
+//@   assume size: len(m.nodes) < 2147483647   // fewer than 2^31 members (randomOffset takes uint32(len))
+//@   inv N1 [C01,C07]: forall n string :: has(m.nodeMap, n) ==> allocated(m.nodeMap[n]) && m.nodeMap[n].Name == n
+//@   inv N2 [C07]: forall i int :: 0 <= i && i < len(m.nodes) ==> allocated(m.nodes[i]) && has(m.nodeMap, m.nodes[i].Name) && m.nodeMap[m.nodes[i].Name] == m.nodes[i]
 //@   inv N3 [C07]: forall i int, j int :: 0 <= i && i < j && j < len(m.nodes) ==> m.nodes[i] != m.nodes[j]
 //@   inv N4 [C07]: len(m.nodes) == len(m.nodeMap)
 //@   inv N5 [C01,C06]: forall n string :: has(m.nodeTimers, n) <==> (has(m.nodeMap, n) && m.nodeMap[n].State == StateSuspect)
-//@   inv N5b [C06]: forall n string :: has(m.nodeTimers, n) ==> m.nodeTimers[n] != nil
+//@   inv N5b [C06]: forall n string :: has(m.nodeTimers, n) ==> allocated(m.nodeTimers[n])
 //@   inv N6 [C02]: has(m.nodeMap, m.config.Name) ==> m.nodeMap[m.config.Name].State != StateSuspect
 //@   inv N7 [C01]: forall n string :: has(m.nodeMap, n) ==> 0 <= m.nodeMap[n].State && m.nodeMap[n].State <= 3
 //@   inv N9 [C02]: has(m.nodeMap, m.config.Name) && !(dol(m.nodeMap[m.config.Name].State) && m.leave == 1) ==> m.nodeMap[m.config.Name].Incarnation <= m.incarnation
@@ -173,6 +174,7 @@ package memberlist
 //@   ensures D-selfstays [C02]: old(live(m, m.config.Name)) && !left ==> live(m, m.config.Name)
 
 //@ ghost $aliveRes int
+//@ ghost $reclaimAge int
 //@ iface AliveDelegate.NotifyAlive(peer)
 //@   assigns $aliveRes
 //@   ensures res: $aliveRes == result
@@ -187,3 +189,59 @@ package memberlist
 //@   loop #1 invariant none [C18]: forall j int :: 0 <= j && j <= rangeindex ==> !ext("(*net.IPNet).Contains", c.CIDRsAllowed[j], ip)
 //@   ensures allow [C18]: result == nil ==> ipok(c, ip)
 //@   ensures deny [C18]: result != nil ==> !ipok(c, ip)
+
+//@ pure vsnOK(v []uint8) bool := len(v) < 3 || (v[0] != 0 && v[1] != 0 && v[0] <= v[1])
+//@ pure vsnEqRec(v []uint8, p *nodeState) bool := len(v) == 6 && v[0] == p.PMin && v[1] == p.PMax && v[2] == p.PCur && v[3] == p.DMin && v[4] == p.DMax && v[5] == p.DCur
+
+//@ func (*Memberlist).aliveNode(m, a, notify, bootstrap)
+//@   safety [C13,C20]
+//@   monitor Memberlist.nodeLock
+//@   requires ok: mlOK(m) && a != nil
+//@   requires nowrap: a.Incarnation < 4294967295
+//@   requires boot: bootstrap && a.Node == m.config.Name ==> a.Incarnation <= m.incarnation
+//@   at call time.Since: set $reclaimAge := res
+//@   let n := a.Node
+//@   let h := old(has(m.nodeMap, a.Node))
+//@   let r := old(m.nodeMap[a.Node])
+//@   let self := a.Node == m.config.Name
+//@   let sameAddr := h && old(bytesEq(r.Addr, a.Addr)) && old(r.Port) == a.Port
+//@   let dlgOK := m.config.Alive == nil || (len(a.Vsn) >= 6 && $aliveRes == 0)
+//@   let filt := !(old(m.leave) == 1 && self) && vsnOK(a.Vsn) && dlgOK
+//@   let ipOK := ipok(m.config, a.Addr)
+//@   let reclaim := h && !sameAddr && (old(r.State) == StateLeft || (old(r.State) == StateDead && m.config.DeadNodeReclaimTime > 0 && $reclaimAge > m.config.DeadNodeReclaimTime))
+//@   ensures A-frame [C01,C07,C08,C18]: forall x string :: x != n ==> sameRec(m, x)
+//@   ensures A-timers [C06]: forall x string :: x != n ==> has(m.nodeTimers, x) == old(has(m.nodeTimers, x)) && m.nodeTimers[x] == old(m.nodeTimers[x])
+//@   ensures A-list [C07]: h ==> sameList(m)
+//@   ensures A-reject [C01,C08,C09]: !filt ==> sameView(m) && $ev == old($ev) && $bq == old($bq) && $cf == old($cf)
+//@   ensures A-admit-ip [C18]: filt && (!h || !sameAddr) && !ipOK ==> sameView(m) && quiet()
+//@   ensures A-stale [C01,C08]: filt && sameAddr && !self && a.Incarnation <= old(r.Incarnation) ==> sameView(m) && quiet()
+//@   ensures A-stale-self [C01]: filt && sameAddr && self && a.Incarnation < old(r.Incarnation) ==> sameView(m) && quiet()
+//@   ensures A-same-self [C01]: filt && sameAddr && self && !bootstrap && a.Incarnation == old(r.Incarnation) && old(bytesEq(a.Meta, r.Meta)) && old(vsnEqRec(a.Vsn, r)) ==> sameView(m) && quiet()
+//@   ensures A-noleave [C07]: forall x string :: old(live(m, x)) ==> live(m, x)
+//@   let rInc := ite(h, old(r.Incarnation), 0)
+//@   let accFilt := (!self || m.leave == 0) && vsnOK(a.Vsn) && dlgOK
+//@   let admitted := (h && (sameAddr || (reclaim && ipOK))) || (!h && ipOK)
+//@   let accept := accFilt && admitted && (!self || bootstrap) && ((self && a.Incarnation >= rInc) || (!self && (a.Incarnation > rInc || reclaim)))
+//@   let rec := m.nodeMap[a.Node]
+//@   ensures A-mono [C01]: forall x string :: old(has(m.nodeMap, x)) ==> has(m.nodeMap, x) &&
+//@                   (rankLe(old(m.nodeMap[x].Incarnation), old(m.nodeMap[x].State), m.nodeMap[x].Incarnation, m.nodeMap[x].State) || (x == n && (reclaim || (self && bootstrap))))
+//@   ensures A-conflict [C01,C08]: accFilt && h && !sameAddr && ipOK && !reclaim ==> sameView(m) && $ev == old($ev) && $bq == old($bq)
+//@                   && (m.config.Conflict != nil ==> $cf == snoc(old($cf), EvConflict(n))) && (m.config.Conflict == nil ==> $cf == old($cf))
+//@   ensures A-accept [C01,C07,C08,C09]: accept ==> has(m.nodeMap, n) && rec.Incarnation == a.Incarnation && rec.State == StateAlive
+//@                   && rec.Meta == a.Meta && rec.Addr == a.Addr && rec.Port == a.Port && !has(m.nodeTimers, n)
+//@                   && $bq == snoc(old($bq), Bq(n, aliveMsg, a.Incarnation, n, "", notify)) && $cf == old($cf)
+//@   ensures A-accept-vsn [C09]: accept && len(a.Vsn) >= 6 ==> rec.PMin == a.Vsn[0] && rec.PMax == a.Vsn[1] && rec.PCur == a.Vsn[2] && rec.DMin == a.Vsn[3] && rec.DMax == a.Vsn[4] && rec.DCur == a.Vsn[5]
+//@   ensures A-refute [C02]: accFilt && sameAddr && self && !bootstrap && a.Incarnation >= old(r.Incarnation)
+//@                   && !(a.Incarnation == old(r.Incarnation) && old(bytesEq(a.Meta, r.Meta)) && old(vsnEqRec(a.Vsn, r))) ==>
+//@                   rec == r && r.Incarnation > a.Incarnation && r.State == old(r.State) && r.Meta == old(r.Meta) && r.Addr == old(r.Addr)
+//@                   && $bq == snoc(old($bq), Bq(ext("(net.IP).String", r.Addr), aliveMsg, r.Incarnation, n, "", 0))
+//@   ensures A-addr [C08,C18]: h && !(old(bytesEq(r.Addr, a.Addr)) && old(r.Port) == a.Port) && !(rec.Addr == old(r.Addr) && rec.Port == old(r.Port)) ==> reclaim && ipOK
+//@   ensures A-created [C18]: !h && has(m.nodeMap, n) ==> ipOK && bytesEq(rec.Addr, a.Addr)
+//@   ensures A-selfstays [C02]: old(live(m, m.config.Name)) ==> live(m, m.config.Name)
+//@   ensures A-ev-nil [C07]: m.config.Events == nil ==> $ev == old($ev)
+//@   ensures A-ev-one [C07]: $ev == old($ev) || $ev == snoc(old($ev), EvJoin(n, rec.Meta)) || $ev == snoc(old($ev), EvUpdate(n, rec.Meta))
+//@   ensures A-ev-join-complete [C07]: m.config.Events != nil ==> (forall x string :: !old(live(m, x)) && live(m, x) ==> x == n && $ev == snoc(old($ev), EvJoin(n, rec.Meta)))
+//@   ensures A-ev-join-sound [C07]: (!self || bootstrap) && has(m.nodeMap, n) && $ev == snoc(old($ev), EvJoin(n, rec.Meta)) ==> !old(live(m, n)) && live(m, n)
+//@   ensures A-ev-join-sound-self-before-bootstrap [C07]: self && !bootstrap && has(m.nodeMap, n) && $ev == snoc(old($ev), EvJoin(n, rec.Meta)) ==> !old(live(m, n)) && live(m, n)
+//@   ensures A-ev-update-complete [C07]: m.config.Events != nil && old(live(m, n)) && live(m, n) && !bytesEq(rec.Meta, old(r.Meta)) ==> $ev == snoc(old($ev), EvUpdate(n, rec.Meta))
+//@   ensures A-ev-update-sound [C07]: has(m.nodeMap, n) && $ev == snoc(old($ev), EvUpdate(n, rec.Meta)) ==> old(live(m, n)) && live(m, n) && !bytesEq(rec.Meta, old(r.Meta))
